@@ -501,6 +501,9 @@ def fixed_languages():
             "compounds": [["F", [True]], ["G", [True, True]]],
             "ops": [
                 ["pair2", "lambda x, y: (x ** y ** G(x, y))[x << [A, C], y << [C, D]]", None, None],
+                # a signature without schematic variables that mentions `_`: each use has its own variable
+                ["make", "lambda: A ** F(_)", None, None],
+                ["pairF", "lambda x: F(x) ** x ** x", None, None],
                 ["f", "A ** A", None, "doc"],
                 ["g", "A ** A ** A", None, None],
                 ["h", "(A ** A) ** A ** A", None, None],
@@ -524,6 +527,7 @@ def fixed_languages():
             "idx": dict(kind="i", params=["x"], res="x", bound="A"),
             "two": dict(kind="e", params=None, res=None), "three": dict(kind="e", params=None, res=None),
             "mut": dict(kind="e", params=None, res=None), "wild": dict(kind="q", params=None, res=None), "pair2": dict(kind="e", params=None, res=None),
+            "make": dict(kind="q", params=None, res=None), "pairF": dict(kind="e", params=None, res=None),
             "cmp": dict(kind="c", params=["A"], res="A")}
     lang = L(spec, meta)
     full = {}
@@ -537,6 +541,11 @@ def fixed_languages():
         {"kind": "expr", "n_inputs": 1, "exprs": ["m f (g 1) (idx (1: B))", "g 1 (cmp 1)"], "primitive": True, "flags": full},
         {"kind": "expr", "n_inputs": 2, "exprs": ["two 1 2", "three 1 2", "idx -", "wild (1: B)"], "primitive": True, "flags": mini},
         {"kind": "expr", "n_inputs": 1, "exprs": ["g (f 1) (g (f 1) (-: A))"], "primitive": True, "flags": mini},
+        # the wildcard of `make` is inferred differently by an unrelated expression in between
+        {"kind": "expr", "n_inputs": 0, "exprs": ["make (-: A)"], "primitive": True, "flags": mini},
+        {"kind": "expr", "n_inputs": 0, "exprs": ["pairF (make (-: A)) (-: C)", "pairF (make (-: B)) (-: D)"],
+         "primitive": True, "flags": mini},
+        {"kind": "expr", "n_inputs": 0, "exprs": ["make (-: B)"], "primitive": False, "flags": full},
         # two unresolved variables, each with its own pending constraint, in one label
         {"kind": "expr", "n_inputs": 2, "exprs": ["pair2 1 2"], "primitive": True, "flags": mini},
         {"kind": "expr", "n_inputs": 2, "exprs": ["pair2 2 1", "pair2 1 2"], "primitive": False, "flags": mini},
